@@ -1,5 +1,5 @@
 """C18 CSV and TOON text round-trip - quote-trigger set vs parser special set; quote escaping inverse."""
-from .. import frontend as F, ast as A, cfg as C, util as U, peval as P, guards as G, scanner as S
+from .. import inline as I, frontend as F, ast as A, cfg as C, util as U, peval as P, guards as G, scanner as S
 
 EXPLANATION = ('(R18.1) CSV: the set of characters that trigger quoting under quote_style minimal (targets of the find() calls in the '
                'quoting condition of csv_encoder::write_string_value) contains every character the parser treats specially inside an '
@@ -64,7 +64,8 @@ def run(chk, tier, only_rule=None):
     for fn in U.one_per_inst(ef):
         chk.analysed(fn)
         triggers = set()
-        for c in A.walk_no_lambda(fn['body']):
+        # the quoting decision may live in helpers of the encoder (string_needs_quotes, contains_special_char ...)
+        for c in (y for b in I.closure_bodies(facts, fn, allow=lambda callee, call: callee['n'] not in ('escape_string',)) for y in A.walk_no_lambda(b)):
             if c.get('k') in A.CALLS and A.callee_name(c) == 'find':
                 args = c.get('args') or []
                 if len(args) >= 3:
